@@ -1,9 +1,9 @@
 ------------------------------- MODULE MCCqrs -------------------------------
-(* Exhaustive check of the dispatch rules over all registries of <= 3 handlers over 2 types, all
+(* Exhaustive check of the dispatch rules over all registries of <= 3 handlers over 2 types in up to 2 groups, all
    flag settings, all messages: one state per case.                                            *)
 EXTENDS Cqrs, FiniteSets
 Types == {"T1", "T2"}
-Hd(i) == {[h |-> i, type |-> t, fails |-> f] : t \in Types, f \in BOOLEAN}
+Hd(i) == {[h |-> i, type |-> t, fails |-> f, grp |-> g] : t \in Types, f \in BOOLEAN, g \in 1..2}
 Regs == {<<a>> : a \in Hd(1)} \cup {<<a, b>> : a \in Hd(1), b \in Hd(2)} \cup {<<a, b, c>> : a \in Hd(1), b \in Hd(2), c \in Hd(3)}
 Flags == [ackUnknown : BOOLEAN, ackErrors : BOOLEAN]
 MsgsAll == [name : Types \cup {"foreign", ""}, wellformed : BOOLEAN]
@@ -18,8 +18,10 @@ InvokedOnlyIfMatch == \A i \in 1..Len(D.calls) : msg.wellformed /\ reg[D.calls[i
 GroupOrder == kind = "group" =>
                  /\ \A i, j \in 1..Len(D.calls) : i < j => D.calls[i] < D.calls[j]
                  /\ \A i \in 1..Len(D.calls) : reg[D.calls[i]].fails => i = Len(D.calls)
-\* unknown types: commands acknowledged, events as AckOnUnknownEvent says
-UnknownPolicy == (msg.name \notin {reg[i].type : i \in 1..Len(reg)}) =>
+\* unknown types: commands acknowledged, events as AckOnUnknownEvent says -- unknown to the handler / the group
+\* whose subscription delivered the message, whatever other handlers / groups of the processor may handle
+Relevant == IF kind = "group" THEN {i \in 1..Len(reg) : reg[i].grp = on} ELSE {on}
+UnknownPolicy == (msg.name \notin {reg[i].type : i \in Relevant}) =>
                     (D.calls = << >> /\ D.settle = IF kind = "command" \/ flags.ackUnknown THEN "ack" ELSE "nack")
 \* a handler error means Nack unless AckCommandHandlingErrors (commands only)
 ErrorPolicy == (Len(D.calls) > 0 /\ reg[D.calls[Len(D.calls)]].fails) =>
